@@ -80,8 +80,8 @@ var plans = map[string]Plan{
 			"deep-nesting probe: a child process dying with 'stack overflow' is the observation; depths 2^12..2^22",
 		},
 		Units: []Unit{
-			{Name: "random-bytes", Pkg: "./checks/c03", Run: "^TestRandomBytes$", Rapid: true, Shards: [2]int{4, 8}, Checks: [2]int{10000, 80000}},
-			{Name: "mutated", Pkg: "./checks/c03", Run: "^TestMutated$", Rapid: true, Shards: [2]int{8, 16}, Checks: [2]int{10000, 60000}},
+			{Name: "random-bytes", Pkg: "./checks/c03", Run: "^TestRandomBytes$", Rapid: true, Shards: [2]int{4, 8}, Checks: [2]int{20000, 80000}},
+			{Name: "mutated", Pkg: "./checks/c03", Run: "^TestMutated$", Rapid: true, Shards: [2]int{8, 16}, Checks: [2]int{20000, 60000}},
 			{Name: "truncate-all", Pkg: "./checks/c03", Run: "^TestTruncateEverywhere$", Rapid: true, Shards: [2]int{2, 8}, Checks: [2]int{500, 3000}},
 			{Name: "big-binaries", Pkg: "./checks/c03", Run: "^TestBigBinaries$", Rapid: true, Shards: [2]int{2, 4}, Checks: [2]int{30, 200}},
 			{Name: "deep-nesting", Pkg: "./checks/c03", Run: "^TestDeepNesting$", Shards: [2]int{1, 1}, Weight: 4},
@@ -100,12 +100,12 @@ var plans = map[string]Plan{
 			"a request handler that reads the fields it knows and calls Skip on the others (what generated Decode methods do) must obtain exactly those fields; service names contain no ':' (the multiplex handler splits at the first one)",
 		},
 		Units: []Unit{
-			{Name: "envelope", Pkg: "./checks/c12", Run: "^TestEnvelopeRoundTrip$", Rapid: true, Shards: [2]int{4, 8}, Checks: [2]int{3000, 40000}},
-			{Name: "request", Pkg: "./checks/c12", Run: "^TestRequests$", Rapid: true, Shards: [2]int{6, 12}, Checks: [2]int{3000, 30000}},
-			{Name: "request-bytes", Pkg: "./checks/c12", Run: "^TestRequestBytes$", Rapid: true, Shards: [2]int{4, 12}, Checks: [2]int{4000, 30000}},
+			{Name: "envelope", Pkg: "./checks/c12", Run: "^TestEnvelopeRoundTrip$", Rapid: true, Shards: [2]int{4, 8}, Checks: [2]int{8000, 40000}},
+			{Name: "request", Pkg: "./checks/c12", Run: "^TestRequests$", Rapid: true, Shards: [2]int{6, 12}, Checks: [2]int{8000, 30000}},
+			{Name: "request-bytes", Pkg: "./checks/c12", Run: "^TestRequestBytes$", Rapid: true, Shards: [2]int{4, 12}, Checks: [2]int{8000, 30000}},
 			{Name: "first-read-grid", Pkg: "./checks/c12", Run: "^TestFirstReadGrid$", Shards: [2]int{1, 1}},
 			{Name: "request-history", Pkg: "./checks/c12", Run: "^TestRequestHistory$", Rapid: true, Shards: [2]int{4, 12}, Checks: [2]int{1500, 12000}},
-			{Name: "server-client", Pkg: "./checks/c12", Run: "^TestServerClient$", Rapid: true, Shards: [2]int{2, 8}, Checks: [2]int{3000, 25000}},
+			{Name: "server-client", Pkg: "./checks/c12", Run: "^TestServerClient$", Rapid: true, Shards: [2]int{2, 8}, Checks: [2]int{6000, 25000}},
 		},
 	},
 	"C13": {
@@ -152,8 +152,8 @@ var plans = map[string]Plan{
 			"compile runs in-process: a fatal stack overflow in the compiler kills the shard and is reported from its log",
 		},
 		Units: []Unit{
-			{Name: "numeric", Pkg: "./checks/c09", Run: "^TestNumeric$", Rapid: true, Shards: [2]int{8, 16}, Checks: [2]int{5000, 50000}},
-			{Name: "safe-programs", Pkg: "./checks/c09", Run: "^TestSafePrograms$", Rapid: true, Shards: [2]int{4, 8}, Checks: [2]int{1000, 10000}},
+			{Name: "numeric", Pkg: "./checks/c09", Run: "^TestNumeric$", Rapid: true, Shards: [2]int{8, 16}, Checks: [2]int{15000, 50000}},
+			{Name: "safe-programs", Pkg: "./checks/c09", Run: "^TestSafePrograms$", Rapid: true, Shards: [2]int{4, 8}, Checks: [2]int{2500, 10000}},
 		},
 	},
 	"C20": {
@@ -198,9 +198,9 @@ var plans = map[string]Plan{
 			"input classes of open known findings are excluded by construction in the random units (C11_AVOID) and counted; the fixed grid re-observes them on every run",
 		},
 		Units: []Unit{
-			{Name: "roundtrip", Pkg: "./checks/c11", Run: "^TestRoundTrip$", Rapid: true, Shards: [2]int{6, 16}, Checks: [2]int{8000, 100000}, Env: []string{"C11_AVOID=K2,N1"}},
-			{Name: "walk", Pkg: "./checks/c11", Run: "^TestWalk$", Rapid: true, Shards: [2]int{4, 8}, Checks: [2]int{8000, 100000}, Env: []string{"C11_AVOID=K2,N1"}},
-			{Name: "totality", Pkg: "./checks/c11", Run: "^TestTotality$", Rapid: true, Shards: [2]int{6, 16}, Checks: [2]int{10000, 150000}, Env: []string{"C11_AVOID=K2,N1"}},
+			{Name: "roundtrip", Pkg: "./checks/c11", Run: "^TestRoundTrip$", Rapid: true, Shards: [2]int{6, 16}, Checks: [2]int{20000, 100000}, Env: []string{"C11_AVOID=K2,N1"}},
+			{Name: "walk", Pkg: "./checks/c11", Run: "^TestWalk$", Rapid: true, Shards: [2]int{4, 8}, Checks: [2]int{16000, 100000}, Env: []string{"C11_AVOID=K2,N1"}},
+			{Name: "totality", Pkg: "./checks/c11", Run: "^TestTotality$", Rapid: true, Shards: [2]int{6, 16}, Checks: [2]int{25000, 150000}, Env: []string{"C11_AVOID=K2,N1"}},
 			{Name: "repros", Pkg: "./checks/c11", Run: "^TestRepros$", Shards: [2]int{1, 1}},
 			{Name: "fuzz", Pkg: "./checks/c11", Fuzz: "FuzzParse", Shards: [2]int{0, 1}, FuzzTime: [2]time.Duration{0, 120 * time.Second}, Weight: 16, Env: []string{"C11_AVOID=K2,N1"}},
 		},
@@ -286,7 +286,7 @@ var plans = map[string]Plan{
 			"harness/drv reflection mapping",
 		},
 		Units: []Unit{
-			{Name: "c04", Run: "^TestC04$", Rapid: true, Shards: [2]int{10, 16}, Checks: [2]int{1500, 15000}, Lab: &LabSpec{Kind: "value", Programs: [2]int{16, 120}}},
+			{Name: "c04", Run: "^TestC04$", Rapid: true, Shards: [2]int{10, 16}, Checks: [2]int{3000, 15000}, Lab: &LabSpec{Kind: "value", Programs: [2]int{16, 120}}},
 			{Name: "c04-encode", Run: "^TestC04Encode$", Rapid: true, Shards: [2]int{4, 8}, Checks: [2]int{1500, 10000}, Lab: &LabSpec{Kind: "value", Programs: [2]int{16, 120}}},
 		},
 	},
@@ -301,7 +301,7 @@ var plans = map[string]Plan{
 			"harness/drv reflection mapping; idlmodel.Project",
 		},
 		Units: []Unit{
-			{Name: "c05", Run: "^TestC05$", Rapid: true, Shards: [2]int{14, 16}, Checks: [2]int{1500, 15000}, Lab: &LabSpec{Kind: "value", Programs: [2]int{16, 120}}},
+			{Name: "c05", Run: "^TestC05$", Rapid: true, Shards: [2]int{14, 16}, Checks: [2]int{3000, 15000}, Lab: &LabSpec{Kind: "value", Programs: [2]int{16, 120}}},
 		},
 	},
 	"C14": {
@@ -313,8 +313,8 @@ var plans = map[string]Plan{
 			"harness/drv reflection mapping; wiremodel.SemEqual as the structural comparison",
 		},
 		Units: []Unit{
-			{Name: "c14", Run: "^TestC14$", Rapid: true, Shards: [2]int{10, 16}, Checks: [2]int{1500, 15000}, Lab: &LabSpec{Kind: "value", Programs: [2]int{16, 120}}},
-			{Name: "wire-pairs", Pkg: "./checks/c14", Run: "^TestWirePairs$", Rapid: true, Shards: [2]int{4, 8}, Checks: [2]int{8000, 60000}},
+			{Name: "c14", Run: "^TestC14$", Rapid: true, Shards: [2]int{10, 16}, Checks: [2]int{3000, 15000}, Lab: &LabSpec{Kind: "value", Programs: [2]int{16, 120}}},
+			{Name: "wire-pairs", Pkg: "./checks/c14", Run: "^TestWirePairs$", Rapid: true, Shards: [2]int{4, 8}, Checks: [2]int{16000, 60000}},
 		},
 	},
 	"C15": {
@@ -327,7 +327,7 @@ var plans = map[string]Plan{
 			"harness/drv reflection mapping",
 		},
 		Units: []Unit{
-			{Name: "c15", Run: "^TestC15$", Rapid: true, Shards: [2]int{14, 16}, Checks: [2]int{1200, 12000}, Lab: &LabSpec{Kind: "redact", Programs: [2]int{16, 120}}},
+			{Name: "c15", Run: "^TestC15$", Rapid: true, Shards: [2]int{14, 16}, Checks: [2]int{2400, 12000}, Lab: &LabSpec{Kind: "redact", Programs: [2]int{16, 120}}},
 		},
 	},
 	"C10": {
